@@ -186,6 +186,10 @@ def run(ctx, chk):
         # what a handed-out slice denotes is C03's
         core.import_rows(chk, cfg, "C11", "props.C11", ("G04", "G05c/windows", "I-override"))
         core.import_rows(chk, cfg, "C03", "props.C03", ("R-index", "S-len"))
+    import core as _core
+    for cfg in ctx.configs():
+        chk.cfg = cfg.name
+        _core.import_codec_core(chk, cfg)      # the symbols' own tables (C05)
     chk.floor("k-mer rows over all configurations", rows, 6 * len(chk.configs))
 
 
